@@ -104,3 +104,57 @@ Section SkelPH09.
   Proof. intros; eapply predict_returns; eassumption. Qed.
 End SkelPH09.
 Print Assumptions C09_code_relabel_plumbing.
+
+(* ---- the OBSERVATION HOOKS AS TRANSLATED (src/fast_ticc/_verif.py, Gen/G_vh_*.v; facts: Proofs/GenEquivRM.v): with the guard off a hook makes
+   NO call at all and returns None; with it on, it snapshots the listener list and calls each listener once, in order, with the
+   event and the payload, and returns None - it hands nothing back into the library ---- *)
+From Ticc Require Import Gen.PySkel Gen.G_vh_emit Gen.G_vh_add Gen.G_vh_clear Proofs.GenEquivRM.
+Section SkelRM09.
+  Local Open Scope string_scope.
+  Variable V : Type.
+  Variable vnone : V.
+  Variable vint : Z -> V.
+  Variable as_int : V -> option Z.
+  Variable veq : V -> V -> bool.
+  Variable getattr : V -> string -> V.
+  Variable truthy : V -> bool.
+  Variable is_none : V -> bool.
+  Variables vtrue vfalse : V.
+  Variable as_list : V -> list V.
+  Variable vglobal : string -> V.
+  Variable oracle : list (event V) -> string -> list V -> res V.
+  Theorem C09_code_hook_disabled (evt payload r : V) (log log' : list (event V)) :
+    truthy (vglobal "ENABLED") = false ->
+    g_emit V vnone truthy as_list vglobal oracle evt payload log = (Ret r, log') ->
+    log' = log /\ r = vnone.
+  Proof. intros; eapply emit_disabled; eassumption. Qed.
+  Theorem C09_code_hook_enabled (evt payload r : V) (log log' : list (event V)) :
+    truthy (vglobal "ENABLED") = true ->
+    g_emit V vnone truthy as_list vglobal oracle evt payload log = (Ret r, log') ->
+    exists ls,
+      let snap := Ev "list" [vglobal "_LISTENERS"] in
+      let evs := map (fun l => Ev "apply" [l; evt; payload]) (as_list ls) in
+      log' = (log ++ snap :: evs)%list /\
+      length evs = length (as_list ls) /\
+      oracle log "list" [vglobal "_LISTENERS"] = Ret ls /\
+      (forall k, (k < length (as_list ls))%nat ->
+         exists a, oracle (log ++ snap :: firstn k evs)%list "apply" [nth k (as_list ls) vnone; evt; payload] = Ret a) /\
+      r = vnone.
+  Proof. intros; eapply emit_enabled; eassumption. Qed.
+  Theorem C09_code_hook_add (listener r : V) (log log' : list (event V)) :
+    g_add_listener V vnone oracle listener log = (Ret r, log') ->
+    log' = (log ++ [Ev "_LISTENERS.append" [listener]])%list /\
+    (exists a, oracle log "_LISTENERS.append" [listener] = Ret a) /\
+    r = vnone.
+  Proof. intros; eapply add_listener_returns; eassumption. Qed.
+  Theorem C09_code_hook_clear (r : V) (log log' : list (event V)) :
+    g_clear_listeners V vnone oracle log = (Ret r, log') ->
+    log' = (log ++ [Ev f_clear []])%list /\
+    (exists a, oracle log f_clear [] = Ret a) /\
+    r = vnone.
+  Proof. intros; eapply clear_listeners_returns; eassumption. Qed.
+End SkelRM09.
+Print Assumptions C09_code_hook_disabled.
+Print Assumptions C09_code_hook_enabled.
+Print Assumptions C09_code_hook_add.
+Print Assumptions C09_code_hook_clear.
